@@ -166,6 +166,8 @@ pub struct Inner {
     pub calls: u64,
     pub faults: BTreeMap<u64, Fault>,
     pub log: Vec<String>,
+    /// which handle (task tag) issued each logged call
+    pub log_tags: Vec<usize>,
     pub snapshots: Vec<Snapshot>,
     pub record: bool,
     /// read-only probes (`exists` / `head` / `list`): calls the modelled operations of the current
@@ -233,6 +235,7 @@ impl FaultStore {
                 calls: 0,
                 faults: faults.iter().cloned().collect(),
                 log: Vec::new(),
+                log_tags: Vec::new(),
                 snapshots: Vec::new(),
                 record: true,
                 probes: 0,
@@ -280,6 +283,7 @@ impl FaultStore {
             };
             g.snapshots.push(snap);
             g.log.push(format!("{}:{}", idx, what));
+            g.log_tags.push(self.tag);
         }
         if g.fail_all {
             return Some(Fault::Fail);
@@ -448,6 +452,41 @@ impl ObjectStore for FaultStore {
                 .ok_or_else(|| IoError::new(ErrorKind::NotFound, "Key not found"))
         })
     }
+}
+
+/// Runs one case so that a panic inside it — an `unwrap` / `expect` of this harness on a call into the
+/// code under test that "cannot fail", or a panic of the code under test itself — does not take the
+/// whole run down (which the check could only report as `no-failing-input-found`): the panic
+/// becomes a violation carrying the message and the op lines the case had produced so far, and
+/// the remaining cases still run.
+pub struct Guarded<F> {
+    inner: Pin<Box<F>>,
+}
+
+impl<F: Future> Future for Guarded<F> {
+    type Output = Result<F::Output, String>;
+    fn poll(mut self: Pin<&mut Self>, cx: &mut Context<'_>) -> Poll<Self::Output> {
+        let inner = &mut self.inner;
+        match std::panic::catch_unwind(std::panic::AssertUnwindSafe(|| inner.as_mut().poll(cx))) {
+            Ok(Poll::Pending) => Poll::Pending,
+            Ok(Poll::Ready(v)) => Poll::Ready(Ok(v)),
+            Err(pl) => Poll::Ready(Err(pl.downcast_ref::<String>().cloned().or_else(|| pl.downcast_ref::<&str>().map(|s| s.to_string())).unwrap_or_else(|| "panic".into()))),
+        }
+    }
+}
+
+pub fn guarded<F: Future>(f: F) -> Guarded<F> {
+    Guarded { inner: Box::pin(f) }
+}
+
+/// the verdict for a case that panicked: a violation of the property's check, never a silent skip
+pub fn report_panic(out: &mut Out, prop: &str, kind: &str, seed_info: &str, ops_before: usize, msg: &str) {
+    let (ops, imp) = out.lines();
+    let tail: Vec<String> = ops[ops_before.min(ops.len())..].iter().zip(imp[ops_before.min(imp.len())..].iter()).map(|(o, a)| format!("{} => {}", o, a)).collect();
+    let tail = if tail.len() > 60 { tail[tail.len() - 60..].to_vec() } else { tail };
+    out.violation(&format!("{}:case-panicked:{}", prop, kind),
+        &format!("a case of the harness panicked — a call into the code under test that the harness expects to succeed failed, or the code under test panicked: {}", msg),
+        json!({"case": seed_info, "panic": msg, "ops_of_the_case_so_far": tail}));
 }
 
 /// a `TimeSource` whose `now_millis() - ttl` is the cutoff the case wants
@@ -655,11 +694,13 @@ impl Proc {
         Proc { store, pers, rid, text, acked: Vec::new(), pending: Vec::new(), acked_at: vec![(0, 0)], segs: Vec::new(), lines: Vec::new(), faults: faults.to_vec(), header: None, committed: false, panicked: None }
     }
     /// a NEW process on a store image (the crash image of call `c` of `prev`'s workload)
-    pub async fn restart(prev: &Proc, c: u64, torn: bool, img: &BTreeMap<String, Vec<u8>>) -> Proc {
+    /// `Err`: the real code cannot even start on the image (a finding, not a harness failure)
+    pub async fn restart(prev: &Proc, c: u64, torn: bool, img: &BTreeMap<String, Vec<u8>>) -> Result<Proc, String> {
         let store = FaultStore::from_image(img);
-        let pers = StreamingPersistence::with_clock(Arc::new(store.clone()), PREFIX.to_string(), prev.rid, wb_config(), SimulatedClock::new(0))
-            .await
-            .expect("construct StreamingPersistence on the crash image");
+        let pers = match StreamingPersistence::with_clock(Arc::new(store.clone()), PREFIX.to_string(), prev.rid, wb_config(), SimulatedClock::new(0)).await {
+            Ok(p) => p,
+            Err(e) => return Err(e.to_string()),
+        };
         {
             let mut g = store.inner.lock().unwrap();
             g.calls = 0;
@@ -668,7 +709,7 @@ impl Proc {
             g.snapshots.clear();
         }
         let header = format!("RESTART {} {}", c, torn as u8);
-        Proc { store, pers, rid: prev.rid, text: format!("{}{};", prev.text, header), acked: Vec::new(), pending: Vec::new(), acked_at: vec![(0, 0)], segs: Vec::new(), lines: Vec::new(), faults: Vec::new(), header: Some(header), committed: false, panicked: None }
+        Ok(Proc { store, pers, rid: prev.rid, text: format!("{}{};", prev.text, header), acked: Vec::new(), pending: Vec::new(), acked_at: vec![(0, 0)], segs: Vec::new(), lines: Vec::new(), faults: Vec::new(), header: Some(header), committed: false, panicked: None })
     }
     pub fn log(&mut self, _out: &mut Out, op: String, ans: String) {
         self.text.push_str(&op);
@@ -818,7 +859,8 @@ impl Proc {
         let ids = |l: &Vec<redis_sim::streaming::SegmentInfo>| format!("[{}]", l.iter().map(|s| s.id.to_string()).collect::<Vec<_>>().join(","));
         let (sz, ans) = match &r {
             Ok(None) => (0, "nothing".to_string()),
-            Err(CompactionError::NothingToCompact) => (0, "nothing".to_string()),
+            // compact_if_needed maps NothingToCompact to Ok(None): an Err here is a difference
+            Err(CompactionError::NothingToCompact) => (0, "err-nothing-to-compact".to_string()),
             Err(_) => (0, "err".to_string()),
             Ok(Some(cr)) => match &cr.segment_created {
                 Some(s) => (s.size_bytes, format!("compacted {} -> {} n={} tombs={}", ids(&cr.segments_removed), s.id, s.record_count, cr.tombstones_removed)),
@@ -1075,7 +1117,14 @@ async fn restart_on_orphan_images(out: &mut Out, p: &Proc, ups: &[Upd]) {
             }
             let nack = p.acked_at.iter().filter(|(at, _)| *at <= c as u64).map(|(_, n)| *n).max().unwrap_or(0);
             let acked: Vec<Upd> = p.acked[..nack].to_vec();
-            let mut q = Proc::restart(p, c as u64, torn, &img).await;
+            let mut q = match Proc::restart(p, c as u64, torn, &img).await {
+                Ok(q) => q,
+                Err(e) => {
+                    out.violation("C12:restart-fails-on-crash-image", &format!("a new process cannot start on the store image a crash left behind: StreamingPersistence::with_clock fails: {}", e),
+                        json!({"workload": p.text, "crash_at_call": c, "torn_put": torn, "store_calls": p.store.inner.lock().unwrap().log.clone(), "objects": img.keys().collect::<Vec<_>>()}));
+                    continue;
+                }
+            };
             let cfg = CCfg { target: 1 << 20, min: 1, maxper: 5, now: 0, ttl: std::time::Duration::ZERO };
             let _ = q.compact(out, &cfg).await;
             q.rec(out).await.ok();
@@ -1311,33 +1360,36 @@ pub fn run(a: &Args) {
     let mut rng = Rng::new(a.seed);
     let rt = tokio::runtime::Builder::new_current_thread().enable_all().build().unwrap();
     rt.block_on(async {
-        case(&mut out, &mut Rng::new(0xC12), Some("flush-put-fails")).await;
-        case(&mut out, &mut Rng::new(0xC12), Some("compact-get-fails")).await;
-        case(&mut out, &mut Rng::new(0xC12), Some("compact-read-flip")).await;
-        case(&mut out, &mut Rng::new(0xC12), Some("compact-read-trunc")).await;
-        case(&mut out, &mut Rng::new(0xC12), Some("compact-read-empty")).await;
-        case(&mut out, &mut Rng::new(0xC12), Some("flush-stale-manifest")).await;
-        case(&mut out, &mut Rng::new(0xC12), Some("recover-manifest-digit-flip")).await;
-        case(&mut out, &mut Rng::new(0xC12), Some("compact-read-cut-at-record-boundary")).await;
-        case(&mut out, &mut Rng::new(0xC12), Some("orphan-then-compaction")).await;
-        case(&mut out, &mut Rng::new(0xC12), Some("huge-value")).await;
-        for _ in 0..a.n {
+        { let mark = out.n_ops(); if let Err(msg) = guarded(case(&mut out, &mut Rng::new(0xC12), Some("flush-put-fails"))).await { report_panic(&mut out, "C12", "corpus", "flush-put-fails", mark, &msg); } }
+        { let mark = out.n_ops(); if let Err(msg) = guarded(case(&mut out, &mut Rng::new(0xC12), Some("compact-get-fails"))).await { report_panic(&mut out, "C12", "corpus", "compact-get-fails", mark, &msg); } }
+        { let mark = out.n_ops(); if let Err(msg) = guarded(case(&mut out, &mut Rng::new(0xC12), Some("compact-read-flip"))).await { report_panic(&mut out, "C12", "corpus", "compact-read-flip", mark, &msg); } }
+        { let mark = out.n_ops(); if let Err(msg) = guarded(case(&mut out, &mut Rng::new(0xC12), Some("compact-read-trunc"))).await { report_panic(&mut out, "C12", "corpus", "compact-read-trunc", mark, &msg); } }
+        { let mark = out.n_ops(); if let Err(msg) = guarded(case(&mut out, &mut Rng::new(0xC12), Some("compact-read-empty"))).await { report_panic(&mut out, "C12", "corpus", "compact-read-empty", mark, &msg); } }
+        { let mark = out.n_ops(); if let Err(msg) = guarded(case(&mut out, &mut Rng::new(0xC12), Some("flush-stale-manifest"))).await { report_panic(&mut out, "C12", "corpus", "flush-stale-manifest", mark, &msg); } }
+        { let mark = out.n_ops(); if let Err(msg) = guarded(case(&mut out, &mut Rng::new(0xC12), Some("recover-manifest-digit-flip"))).await { report_panic(&mut out, "C12", "corpus", "recover-manifest-digit-flip", mark, &msg); } }
+        { let mark = out.n_ops(); if let Err(msg) = guarded(case(&mut out, &mut Rng::new(0xC12), Some("compact-read-cut-at-record-boundary"))).await { report_panic(&mut out, "C12", "corpus", "compact-read-cut-at-record-boundary", mark, &msg); } }
+        { let mark = out.n_ops(); if let Err(msg) = guarded(case(&mut out, &mut Rng::new(0xC12), Some("orphan-then-compaction"))).await { report_panic(&mut out, "C12", "corpus", "orphan-then-compaction", mark, &msg); } }
+        { let mark = out.n_ops(); if let Err(msg) = guarded(case(&mut out, &mut Rng::new(0xC12), Some("huge-value"))).await { report_panic(&mut out, "C12", "corpus", "huge-value", mark, &msg); } }
+        for i in 0..a.n {
             let mut r = rng.fork();
-            case(&mut out, &mut r, None).await;
+            let mark = out.n_ops();
+            if let Err(msg) = guarded(case(&mut out, &mut r, None)).await {
+                report_panic(&mut out, "C12", "workload", &format!("seed {} case {}", a.seed, i), mark, &msg);
+            }
         }
         // the layer above the writer: step functions of StreamingPersistence on a virtual clock, WriteBuffer
-        crate::c12x::run_all(&mut out, &mut rng, a.n / 10 + 20, false).await;
+        { let mark = out.n_ops(); if let Err(msg) = guarded(crate::c12x::run_all(&mut out, &mut rng, a.n / 10 + 20, false)).await { report_panic(&mut out, "C12", "step-functions", &format!("seed {}", a.seed), mark, &msg); } }
         // the concrete ObjectStore implementations (InMemory, LocalFs, FaultStore) under the model's store
-        crate::c12fs::run_all(&mut out, &mut rng, a.n / 30 + 10).await;
+        { let mark = out.n_ops(); if let Err(msg) = guarded(crate::c12fs::run_all(&mut out, &mut rng, a.n / 30 + 10)).await { report_panic(&mut out, "C12", "object-stores", &format!("seed {}", a.seed), mark, &msg); } }
         for _ in 0..(a.n / 2000 + 2) {
             let mut r = rng.fork();
-            crate::c12fs::localfs_pipeline(&mut out, &mut r).await;
+            { let mark = out.n_ops(); if let Err(msg) = guarded(crate::c12fs::localfs_pipeline(&mut out, &mut r)).await { report_panic(&mut out, "C12", "localfs-pipeline", &format!("seed {}", a.seed), mark, &msg); } }
         }
     });
     // the real worker pipeline (sink, bridge, bounded mailbox, actor) under tokio's paused clock
     let rt2 = tokio::runtime::Builder::new_current_thread().enable_all().start_paused(true).build().unwrap();
     rt2.block_on(async {
-        crate::c12x::run_all(&mut out, &mut rng, a.n / 20 + 10, true).await;
+        { let mark = out.n_ops(); if let Err(msg) = guarded(crate::c12x::run_all(&mut out, &mut rng, a.n / 20 + 10, true)).await { report_panic(&mut out, "C12", "worker-pipeline", &format!("seed {}", a.seed), mark, &msg); } }
     });
     crate::stream_api::report(&mut out, "C12");
     out.finish("case = one workload of 3..11 push/flush/compact operations on a real StreamingPersistence + Compactor over a counting, fault-injecting, snapshotting ObjectStore (0..2 faults {error without effect, error after a torn object} at generated call indices), followed by real recovery on the store image at EVERY call boundary (and inside every put); distinct by the op text incl. the fault placement; non-trivial iff some flush returned Ok and the run has a fault, an error or a compaction");
